@@ -28,6 +28,12 @@ Theorem C18_mopidy_edges_ranked : rank_ok_b Edges_gen.edges mopidy_rank = true.
 Proof. exact mopidy_edges_ranked_lemma. Qed.
 Print Assumptions C18_mopidy_edges_ranked.
 
+(* coverage of T2: no `.get()` / `.get(timeout=)` / `.ask(` / `get_all(` / `.join()` / `.wait()` /
+   `.result()` / `.acquire()` in the sources is outside the translated set *)
+Theorem C18_candidates_accounted : candidates_accounted_b Edges_gen.candidates Edges_gen.sites = true.
+Proof. exact mopidy_candidates_accounted_lemma. Qed.
+Print Assumptions C18_candidates_accounted.
+
 (* T3: all upward / sideways traffic found in the sources is Tell, such traffic exists, and a
    Tell never blocks its sender. *)
 Theorem C18_upward_is_tell : upward_is_tell_b Edges_gen.sites mopidy_rank = true.
